@@ -38,7 +38,7 @@ let parse_obs (ws : string list) : obs =
   | ["auditfail"; a; b] -> OEvAuditFail (ios a <> 0, ios b <> 0)
   | ["request"; v] -> OEvRequest (z_of_int (ios v))
   | ["giveme"; v] -> OGiveMe (z_of_int (ios v))
-  | ["capread"] -> OCapRead
+  | ["capread"] | ["capread"; _] -> OCapRead
   | ["flushstart"] -> OEvFlushStart
   | ["flushdone"] -> OEvFlushDone
   | "batch" :: w :: n :: rest ->
@@ -213,6 +213,16 @@ let () =
   let fuel = big_nat 2000000 in
   let args = List.tl (Array.to_list Sys.argv) in
   let mode, files = match args with m :: r -> (m, r) | [] -> ("replay", []) in
+  if String.length mode > 8 && String.sub mode 0 8 = "monitor:" then begin
+    let pid = String.sub mode 8 (String.length mode - 8) in
+    List.iter (fun path ->
+        try
+          let h = Monitors.read path in
+          List.iter (fun msg -> Printf.printf "MONITOR %s %s\n" path msg) (Monitors.monitor pid h);
+          Printf.printf "STATS %s %s\n%!" path (Monitors.stats path h)
+        with Failure m -> Printf.printf "ERROR %s %s\n" path m) files;
+    exit 0
+  end;
   if mode <> "replay" then (prerr_endline ("unknown mode " ^ mode); exit 2);
   List.iter (fun path ->
       try
